@@ -67,7 +67,12 @@ def rng(*salt) -> random.Random:
 
 
 def digest(obj) -> str:
-    return hashlib.sha256(json.dumps(obj, sort_keys=True, default=str).encode()).hexdigest()[:12]
+    try:
+        text = json.dumps(obj, sort_keys=True, default=str)
+    except TypeError:
+        # mappings with keys of mixed types cannot be sorted by json: insertion order is deterministic here
+        text = json.dumps(obj, default=str) if not isinstance(obj, dict) else repr(obj)
+    return hashlib.sha256(text.encode()).hexdigest()[:12]
 
 
 class Timer:
